@@ -30,6 +30,9 @@ type Loader struct {
 	limits Limits
 	// parse errors of the cached files: a cached load reports what a fresh one does
 	cachedParseErrs map[string][]LoadError
+	// generation counts invalidations: a file read before an invalidation is not
+	// cached after it
+	generation uint64
 }
 
 func NewLoader() *Loader {
@@ -63,6 +66,7 @@ func (l *Loader) SetLimits(limits Limits) {
 	if limits != l.limits {
 		// cached files were admitted under the old limits
 		l.cache = make(map[string]*ast.Journal)
+		l.generation++
 	}
 	l.limits = limits
 }
@@ -247,6 +251,7 @@ func (l *Loader) loadSingleInclude(
 	l.mu.RLock()
 	cached, ok := l.cache[includePath]
 	cachedErrs := l.cachedParseErrs[includePath]
+	generation := l.generation
 	l.mu.RUnlock()
 	if ok {
 		errors = append(errors, cachedErrs...)
@@ -303,11 +308,13 @@ func (l *Loader) loadSingleInclude(
 			}
 		}
 		l.mu.Lock()
-		l.cache[includePath] = subResult.Primary
-		if l.cachedParseErrs == nil {
-			l.cachedParseErrs = make(map[string][]LoadError)
+		if l.generation == generation {
+			l.cache[includePath] = subResult.Primary
+			if l.cachedParseErrs == nil {
+				l.cachedParseErrs = make(map[string][]LoadError)
+			}
+			l.cachedParseErrs[includePath] = ownParseErrs
 		}
-		l.cachedParseErrs[includePath] = ownParseErrs
 		l.mu.Unlock()
 		result.Files[includePath] = subResult.Primary
 		result.FileOrder = append(result.FileOrder, includePath)
@@ -353,10 +360,12 @@ func (l *Loader) ClearCache() {
 	l.mu.Lock()
 	defer l.mu.Unlock()
 	l.cache = make(map[string]*ast.Journal)
+	l.generation++
 }
 
 func (l *Loader) InvalidateFile(path string) {
 	l.mu.Lock()
 	defer l.mu.Unlock()
 	delete(l.cache, path)
+	l.generation++
 }
